@@ -141,7 +141,7 @@ func c08Geoms(c *fw.Ctx, idx int) {
 	} else {
 		kind := gen.Kinds7[r.Intn(len(gen.Kinds7))]
 		layout := gen.PickLayout(r, c01Layouts)
-		g = gen.Shape(r, kind, layout, gen.SmallInt, gen.ShapeOpts{CoordFn: c08NoNaN, Big: true})
+		g = gen.Shape(r, kind, layout, gen.SmallInt, gen.ShapeOpts{CoordFn: c08NoNaN, Big: true, Huge: true})
 	}
 	c.SetInput(map[string]any{"geometry": g.String()})
 	t := g.BuildFlat()
